@@ -8,7 +8,8 @@ PATCH="$1"; shift
 HERE="$(cd "$(dirname "$0")/.." && pwd)"
 S="$(mktemp -d /tmp/yarl-mut-XXXXXX)"
 mkdir -p "$S/out" && rsync -a --exclude="*.so" --exclude="*.c" --exclude="__pycache__" /repo/yarl "$S/"
-( cd "$S" && git init -q . && git apply --include='yarl/*' "$PATCH" ) || { echo "PATCH DOES NOT APPLY"; rm -rf "$S"; exit 3; }
+( cd "$S" && git init -q . && git apply --include='yarl/*' "$PATCH" ) || { echo "PATCH DOES NOT APPLY"; if [ -n "${KEEP_REPLAYS:-}" ] && [ -d "$S/out/replays" ]; then mkdir -p "$KEEP_REPLAYS" && cp "$S"/out/replays/*.json "$KEEP_REPLAYS"/ 2>/dev/null; fi
+rm -rf "$S"; exit 3; }
 for P in "$@"; do
   T0=$(date +%s)
   OUT="$(cd "$HERE" && VERIF_REPO="$S" VERIF_OUT="$S/out" ./check "$P" --tier "${TIER:-quick}" 2>&1)"; RC=$?
@@ -16,4 +17,5 @@ for P in "$@"; do
   echo "== $P exit=$RC $((T1-T0))s"
   echo "$OUT" | grep -E "^(VIOLATION|violation detail|HARNESS)" | cut -c1-${WIDTH:-600}
 done
+if [ -n "${KEEP_REPLAYS:-}" ] && [ -d "$S/out/replays" ]; then mkdir -p "$KEEP_REPLAYS" && cp "$S"/out/replays/*.json "$KEEP_REPLAYS"/ 2>/dev/null; fi
 rm -rf "$S"
